@@ -41,6 +41,7 @@ pub struct Tally {
 
 fn try_one(run: &Run, t: &Tally, s: &str, family: &str) {
     t.tried.fetch_add(1, Ordering::Relaxed);
+    let _ = family;
     let case = || J::obj(vec![("kind", J::s("fen")), ("fen", J::s(s)), ("family", J::s(family))]);
     match catch(|| Game::from_fen(s)) {
         Err(e) => run.violation("fen-reader-panic", format!("fen-reader-panic|{s}"), case(), format!("from_fen({s:?}) panicked: {e}")),
